@@ -197,6 +197,42 @@ def run_shard(ctx):
             for key, what in v:
                 ctx.viol(f"hostile-name:{ch}:{name_class(bad)}", f"[{ch}] name/char {bad!r} accepted and output is {what}",
                          common.witness(form, channel=ch, bad=bad, pretty=pretty, klass="names"))
+    # ---- columns that address the generated parts of a control or bind (its element name, its ref/nodeset, the no-body flag) instead of adding an attribute
+    RESERVED = [("body::tag", ["foo bar", "a<b", "upload", "x:y:z", "1tag", ""]), ("control::tag", ["in put", "a>b"]), ("body::ref", ["/data/zz", "zz", "/data/q1 "]),
+                ("body::nodeset", ["/data/zz"]), ("bind::nodeset", ["/data/zz"]), ("body::bodyless", ["yes", "true"]), ("bind::type", ["x y", "a<b"]), ("body::class", ["a b"])]
+    k = 0
+    for col, vals in RESERVED:
+        for val in vals:
+            for owner in ("question", "select", "group", "repeat"):
+                k += 1
+                if not ctx.mine(k) or val == "":
+                    continue
+                from ..model import Form, Row
+                f = Form()
+                cells = {"label": "O", col: val}
+                inner = [Row("q", "text", "inner", {"label": "I"})]
+                own = {"question": Row("q", "text", "own", cells), "select": Row("q", "select_one l1", "own", cells),
+                       "group": Row("group", "begin group", "own", cells, inner), "repeat": Row("repeat", "begin repeat", "own", cells, inner)}[owner]
+                f.survey = [Row("q", "text", "q1", {"label": "Q"}), own]
+                f.choices = {"l1": [{"name": "a", "label": "A"}]}
+                o = drive.convert_form(f)
+                ctx.ctr("reserved_control_key_cases")
+                if not o.ok:
+                    ctx.ctr("reserved_control_key_rejected")
+                    ctx.case(sig=f"reserved|{col}|{owner}|rejected")
+                    continue
+                p, v = invariants.c01_wellformed(o.xform)
+                if p is not None and not v:
+                    v = [(kk, ww) for kk, ww in invariants.c02_closure(p)]
+                    # the rows of the form must still be presented: a column is not a way to drop a control
+                    import re as _re
+                    for need in (["/data/own/inner"] if owner in ("group", "repeat") else ["/data/own"]):
+                        if not _re.search(r'ref="%s"' % _re.escape(need), o.xform.split("<h:body", 1)[-1]):
+                            v.append(("control-missing", f"no body control with ref {need}"))
+                ctx.case(sig=f"reserved|{col}|{owner}|{'bad' if v else 'ok'}")
+                for key, what in v[:3]:
+                    ctx.viol(f"reserved-control-key:{col}:{key.split(':')[0]}", f"[{col}={val!r} on a {owner}] accepted and the output has: {what}",
+                             common.witness(f, klass="reserved", pretty=False, fmt="dict"))
     # ---- dict workbooks with cells that are not text (lists, numbers, booleans, nested dicts) in attribute-bearing places:
     #      whatever pyxform does with them, a *successful* conversion must still be a well-formed document
     import copy
